@@ -109,6 +109,47 @@ func cmdC07(r *RNG, n int, e *Emitter, args []string) {
 				cl.ExecuteOC(ct, fr, &a, &b)
 				return []clip.PathsD{normD(u(a)), normD(u(b))}
 			}},
+			{"ClipperD open subject ExecuteOC", func() any {
+				cl := clip.NewClipperD(prec)
+				cl.AddPaths(s, clip.Subject, true)
+				cl.AddPaths(c, clip.Clip, false)
+				var a, b clip.PathsD
+				cl.ExecuteOC(ct, fr, &a, &b)
+				return []clip.PathsD{normD(a), normD(b)}
+			}, func() any {
+				cl := clip.NewClipper64()
+				cl.AddPaths(q(s), clip.Subject, true)
+				cl.AddPaths(q(c), clip.Clip, false)
+				var a, b clip.Paths64
+				cl.ExecuteOC(ct, fr, &a, &b)
+				return []clip.PathsD{normD(u(a)), normD(u(b))}
+			}},
+			{"ClipperD open subject ExecutePolyTreeD", func() any {
+				cl := clip.NewClipperD(prec)
+				cl.AddPaths(s, clip.Subject, true)
+				cl.AddPaths(c, clip.Subject, false)
+				cl.AddPaths(c, clip.Clip, false)
+				t := clip.NewPolyTreeD()
+				var b clip.PathsD
+				cl.ExecutePolyTreeD(ct, fr, t, &b)
+				return []any{treePolys(t.PolyPathBase), normD(b)}
+			}, func() any {
+				// the tree of the 64-bit engine; its open paths through ExecuteOC (the 64-bit tree call takes no open result in 64-bit form)
+				cl := clip.NewClipper64()
+				cl.AddPaths(q(s), clip.Subject, true)
+				cl.AddPaths(q(c), clip.Subject, false)
+				cl.AddPaths(q(c), clip.Clip, false)
+				t := clip.NewPolyTree64()
+				var od clip.PathsD
+				cl.ExecutePolyTree64(ct, fr, t, &od)
+				c2 := clip.NewClipper64()
+				c2.AddPaths(q(s), clip.Subject, true)
+				c2.AddPaths(q(c), clip.Subject, false)
+				c2.AddPaths(q(c), clip.Clip, false)
+				var a, b clip.Paths64
+				c2.ExecuteOC(ct, fr, &a, &b)
+				return []any{treePolys(t.PolyPathBase), normD(u(b))}
+			}},
 			{"BooleanOpPolyTreeD", func() any { return treePolys(clip.BooleanOpPolyTreeD(ct, s, c, fr, prec).PolyPathBase) }, func() any { return treePolys(clip.BooleanOpPolyTree64(ct, q(s), q(c), fr).PolyPathBase) }},
 			{"InflatePathsD", func() any {
 				return clip.InflatePathsD(s, delta, jt, et, clip.WithPrecision(prec), clip.WithArcTolerance(arct))
